@@ -69,7 +69,7 @@ def job_source(job):
     macro = job.get("macro", "ascent")
     ty = job.get("ty", "i32")
     par = macro.endswith("par")
-    src = ["#![allow(warnings)]", job.get("pre", ""), "ascent::%s! {" % macro, "   pub struct Prog;", job["text"], "}", snap_code(job["rels"], par)]
+    src = ["#![allow(warnings)]", job.get("pre", ""), "ascent::%s! {" % macro, "\n".join(job.get("attrs", [])), "   pub struct Prog;", job["text"], "}", snap_code(job["rels"], par)]
     src.append("pub fn run_all(out: &mut Vec<String>) {")
     for k, script in enumerate(job["scripts"]):
         body = ["let mut p = Prog::default();", "let mut snaps: Vec<String> = vec![];"]
